@@ -63,7 +63,7 @@ let show_clk (l : BinNums.coq_N list) = String.concat "." (Stdlib.List.map strin
 
 let show_event (e : Exec.event) : string =
   match e with
-  | Exec.EvDecision (off, cur, y, ch) ->
+  | Exec.EvDecision (_, off, cur, y, ch) ->
     Printf.sprintf "D[%s]c%sy%d>%s" (show_ids off) (show_opt cur) (if y then 1 else 0) (match ch with None -> "x" | Some n -> string_of_int (int_of_nat n))
   | Exec.EvRandom v -> "R" ^ string_of_n v
   | Exec.EvOp (t, tag, vals, clk) -> Printf.sprintf "O%d:%s:%s@%s" (int_of_nat t) (string_of_n tag) (show_ns vals) (show_clk clk)
